@@ -19,9 +19,10 @@ def main():
     import ioproxy
     import traces
     tempfile.tempdir = job["tmpdir"]
-    th = concretise.Theme()
+    import themes
+    th = themes.get(job.get("theme") or "plain")
     with ioproxy.Installed(tinyflux.storages, job["path"]) as rec:
-        d = driver.Db(tinyflux, th, "csv", bool(job["ai"]), path=job["path"], ntk=3, nfk=3)
+        d = driver.Db(tinyflux, th, "csv", bool(job["ai"]), path=job["path"], ntk=3, nfk=3, csv_opts=job.get("csv") or {})
         for a in job["ops"][:job["j"]]:
             d.execute(a)
         rec.kill_at = rec.ncalls + job["k"]
